@@ -105,7 +105,7 @@ def shapes(tier):
 def main():
     tier = sys.argv[1] if len(sys.argv) > 1 else 'quick'
     rep = Report('C06', tier, 'model_checking')
-    dl = deadline(tier, 240, 1500)
+    dl = deadline(tier, 900, 1500)
     depth = int(os.environ.get('C06_DEPTH', 7 if tier == "quick" else 9))
     tot = {'states': 0, 'transitions': 0}
     per, samples, exhaustive = {}, [], True
